@@ -13,7 +13,7 @@ inverse that fails with a join error => guard false.  Aimed cases: a local schem
 compatibility (A "p q*", B "q+", C "(p|q)*").
 """
 from prosemirror.model import Fragment, Schema, Slice
-from prosemirror.transform import ReplaceStep
+from prosemirror.transform import ReplaceAroundStep, ReplaceStep
 
 from ..codec import SchemaInfo
 from ..core import outcome
@@ -57,8 +57,58 @@ def py_guard(doc, f, t, sl):
     return ok, e, n
 
 
+def py_around_guards(doc, step):
+    """the two guards of theorem replaceAround_undo, computed with the real code"""
+    f, t, gf, gt = step.from_, step.to, step.gap_from, step.gap_to
+
+    def fits():
+        old = doc.slice(f, t)
+        rem = old.remove_between(gf - f, gt - f)
+        gap = doc.slice(gf, gt)
+        return rem.insert_at(gf - f, gap.content) is not None
+
+    stf, fit = outcome(fits)
+    fit = bool(fit) if stf == "ok" else False
+
+    def sides():
+        gap = doc.slice(gf, gt)
+        inserted = step.slice.insert_at(step.insert, gap.content)
+        if inserted is None:
+            return True
+        return py_guard(doc, f, t, inserted)[0]
+
+    sts, sd = outcome(sides)
+    return fit, (bool(sd) if sts == "ok" else True)
+
+
+AROUND_SPEC = {"nodes": {
+    "doc": {"content": "(X|Z)*"},
+    "X": {"content": "text?"},
+    "Z": {"content": "text*"},
+    "text": {},
+}}
+
+_AROUND = None
+
+
+def around_info():
+    global _AROUND
+    if _AROUND is None:
+        _AROUND = SchemaInfo(Schema(AROUND_SPEC), "optional-text-local")
+    return _AROUND
+
+
 def request(ctx, info, doc, step, res_doc, impl_ok, detail, reqs, metas, replay):
-    """queue the guard request for an applied ReplaceStep"""
+    """queue the guard request for an applied ReplaceStep / ReplaceAroundStep"""
+    if isinstance(step, ReplaceAroundStep):
+        if not (step.from_ <= step.gap_from <= step.gap_to <= step.to):
+            return
+        stv, _ = outcome(lambda: doc.check())
+        reqs.append({"op": "aroundGuards", "s": info.lean_id, "doc": info.node(doc), "from": step.from_,
+                     "to": step.to, "gapFrom": step.gap_from, "gapTo": step.gap_to,
+                     "slice": info.slice(step.slice), "insert": step.insert})
+        metas.append(("aroundGuards", replay, (py_around_guards(doc, step), stv == "ok", impl_ok, detail)))
+        return
     if not isinstance(step, ReplaceStep) or step.from_ > step.to:
         return
     st, val = outcome(lambda: py_guard(doc, step.from_, step.to, step.slice))
@@ -91,8 +141,54 @@ def compare(ctx, replay, payload, out):
         ctx.count("guard:false&undo-" + ("ok" if impl_ok else "fails"))
 
 
+def compare_around(ctx, replay, payload, out):
+    (pfit, pside), valid, impl_ok, detail = payload
+    if "ok" not in out:
+        ctx.mismatch("aroundGuards", replay, [pfit, pside], out)
+        return
+    mfit, mside = bool(out["ok"][0]), bool(out["ok"][1])
+    ctx.count("around-fit:" + ("true" if mfit else "false"))
+    ctx.count("around-sides:" + ("true" if mside else "false"))
+    if [mfit, mside] != [pfit, pside]:
+        ctx.mismatch("aroundGuards", replay, [pfit, pside], [mfit, mside])
+        return
+    structure = detail is not None and "Structure" in str(detail)
+    if valid and mfit and mside and not impl_ok and not structure:
+        # all guards of replaceAround_undo other than the structure check hold, the failure is not the structure check
+        ctx.mismatch("replaceAround_undo-theorem", replay, "guards hold => inverse restores", str(detail)[:200])
+    if not mfit:
+        ctx.count("around-fit:false&undo-" + ("ok" if impl_ok else "fails"))
+
+
+def aimed_around(ctx, rng, undo_single, reqs, metas):
+    """replace-around steps whose gap lies inside / next to text of a node with content `text?`"""
+    info = around_info()
+    ctx.driver.add_schema(info)
+    S = info.schema
+    n = S.node
+    letters = "abcdefgh"
+    for _ in range(ctx.budget(40, 100)):
+        kids = []
+        for _k in range(rng.randint(1, 3)):
+            txt = "".join(rng.choice(letters) for _ in range(rng.randint(2, 6)))
+            kids.append(n(rng.choice(["X", "Z"]), None, [S.text(txt)]))
+        doc = n("doc", None, kids)
+        i = rng.randrange(len(kids))
+        pos = sum(k.node_size for k in kids[:i])
+        size = kids[i].content.size
+        gf = pos + 1 + rng.randint(0, size)
+        gt = rng.randint(gf, pos + 1 + size)
+        step = ReplaceAroundStep(pos, pos + kids[i].node_size, gf, gt, Slice(Fragment.from_(n(rng.choice(["X", "Z"]))), 0, 0), 1,
+                                 rng.random() < 0.2)
+        st, res = outcome(lambda: step.apply(doc))
+        if st == "ok" and res.doc is not None:
+            ctx.count("aimed-around-applied")
+            undo_single(ctx, info, doc, step, res.doc, reqs, metas, "aimed-around", expect_known=True)
+
+
 def aimed(ctx, rng, gen, undo_single, reqs, metas):
     """replace steps in the non-transitive schema that bridge A and B through an open C (and variations)"""
+    aimed_around(ctx, rng, undo_single, reqs, metas)
     info = bridge_info()
     ctx.driver.add_schema(info)
     S = info.schema
